@@ -20,6 +20,18 @@ Definition mkind_eqb (a b : mkind) : bool :=
   | _, _ => false
   end.
 
+(** run the elements of a list in order, each behind its own admission test; stop at the first
+    refusal or failure (the loop shape of DispatchActions, DispatchMsg, executeTx, runMsgs) *)
+Section SeqOpt.
+  Variables (A St : Type) (f : A -> St -> option St) (ok : St -> A -> bool).
+  Fixpoint seq_opt (l : list A) (s : St) : option St :=
+    match l with
+    | [] => Some s
+    | c :: r => if ok s c then match f c s with Some s' => seq_opt r s' | None => None end else None
+    end.
+End SeqOpt.
+Arguments seq_opt {A St}.
+
 Section Tree.
   Variable L : Type.
 
@@ -108,7 +120,7 @@ Section Tree.
     match t with
     | Leaf l => leaf_basic l
     | Exec _ cs => negb (Nat.eqb (length cs) 0) && forallb basic cs
-    | Gov _ cs => negb (Nat.eqb (length cs) 0) && forallb basic cs
+    | Gov _ cs => forallb basic cs          (* an empty message list is valid when metadata is given *)
     | Wasm _ _ _ => true
     | Ica _ _ _ => true
     end.
@@ -120,50 +132,25 @@ Section Tree.
   Fixpoint run (t : tree) (s : St) {struct t} : option St :=
     match t with
     | Leaf l => leaf_run s l
-    | Exec g cs =>
-        (fix go (cs : list tree) (s : St) : option St :=
-           match cs with
-           | [] => Some s
-           | c :: r => if authz_ok s g c
-                       then match run c s with Some s' => go r s' | None => None end
-                       else None
-           end) cs s
+    | Exec g cs => seq_opt run (fun s c => authz_ok s g c) cs s
     | Wasm snd ctr cs =>
-        if wasm_reflects ctr snd && negb (Nat.eqb (length cs) 0) then
-        (fix go (cs : list tree) (s : St) : option St :=
-           match cs with
-           | [] => Some s
-           | c :: r => if basic c && (signer c =? ctr) && wasm_admits c
-                       then match run c s with Some s' => go r s' | None => None end
-                       else None
-           end) cs s
+        if wasm_reflects ctr snd && negb (Nat.eqb (length cs) 0)
+        then seq_opt run (fun _ c => basic c && (signer c =? ctr) && wasm_admits c) cs s
         else None
     | Gov _ cs =>
         (* Keeper.SubmitProposal: messages validated, signer must be the gov account; nothing runs *)
         if forallb (fun c => basic c && (signer c =? gov_addr)) cs then Some s else None
     | Ica _ acct cs =>
-        (fix go (cs : list tree) (s : St) : option St :=
-           match cs with
-           | [] => Some s
-           | c :: r => if ica_allow (kind_of c) && (signer c =? acct)
-                       then match run c s with Some s' => go r s' | None => None end
-                       else None
-           end) cs s
-    end.
-
-  (** the three loops above, named (definitionally equal to the local fixes) *)
-  Fixpoint run_children (ok : St -> tree -> bool) (cs : list tree) (s : St) : option St :=
-    match cs with
-    | [] => Some s
-    | c :: r => if ok s c then match run c s with Some s' => run_children ok r s' | None => None end else None
+        (* icahost executeTx runs the packet's messages on a cache context; a failure only yields an
+           error acknowledgement, the relayer's transaction still succeeds *)
+        match seq_opt run (fun _ c => ica_allow (kind_of c) && (signer c =? acct)) cs s with
+        | Some s' => Some s'
+        | None => Some s
+        end
     end.
 
   (** a list of top-level messages, as baseapp.runMsgs does *)
-  Fixpoint run_all (ts : list tree) (s : St) : option St :=
-    match ts with
-    | [] => Some s
-    | t :: r => match run t s with Some s' => run_all r s' | None => None end
-    end.
+  Definition run_all (ts : list tree) (s : St) : option St := seq_opt run (fun _ _ => true) ts s.
 End Tree.
 
 Arguments Leaf {L}.
